@@ -10,7 +10,10 @@
 //	      same-long / adjacent-long indices, rejected calls (index/value out of range);
 //	(iii) constructor from reference-packed longs (also with garbage in the padding bits),
 //	      refusal of len+-1, WriteTo -> ReadFrom into fresh/used storages -> Fix(b), Fix refusing a
-//	      wrong long count, size rules; b == 0: every Get is 0.
+//	      wrong long count, size rules; b == 0: every Get is 0;
+//	(iv)-(ix) in extend.go: wrong-raw-length menu, wire operations inside histories on one object,
+//	      the operation menu on objects that came out of ReadFrom+Fix, reader environments,
+//	      garbage-padding operations, chains of ReadFrom+Fix on one destination.
 //
 // Oracle: a []uint64 model; after EVERY operation every index is read back and every raw long
 // is compared with refpal's packer (floor(64/b) values per long from the low bits, none
@@ -50,11 +53,12 @@ type Case struct {
 	ViaCtor bool     `json:"via_ctor,omitempty"`
 	Garbage bool     `json:"garbage_padding,omitempty"`
 	Ops     []Op     `json:"ops,omitempty"`
-	B2      int      `json:"b2,omitempty"`    // wire: width of the previously used destination (-1 fresh)
-	Delta   int      `json:"delta,omitempty"` // refuse / wirefix: length offset
+	B2      int      `json:"b2,omitempty"`            // wire: width of the previously used destination (-1 fresh)
+	Delta   int      `json:"delta,omitempty"`         // refuse / wirefix: length offset
 	Frag    int      `json:"frag,omitempty"`          // wire: the reader hands out at most this many bytes per Read (0: all)
 	EOFData bool     `json:"eof_with_data,omitempty"` // wire: the reader returns io.EOF together with the last bytes
 	ByteRd  bool     `json:"byte_reader,omitempty"`   // wire: the reader also implements io.ByteReader
+	Chain   []int    `json:"chain,omitempty"`         // chain: (width, values, bytes cut off the end) of the encodings the destination read before
 
 	t *tmpl // precomputed background (not serialised; recomputed from Init when nil)
 }
@@ -186,6 +190,31 @@ func compareAll(bs *level.BitStorage, b int, model []uint64, rawToo bool, sc *sc
 	return
 }
 
+// compareNear reads the indices around i (and the first and last one) only.
+func compareNear(bs *level.BitStorage, b, n int, model []uint64, i int) (kind, detail string, at int) {
+	at = -1
+	if n == 0 {
+		return
+	}
+	var near []int
+	if i >= 0 && i < n {
+		near = neighbours(b, n, i)
+	}
+	near = append(near, 0, n-1)
+	pk, frame, panicked := engine.Guard(func() {
+		for _, j := range near {
+			if got := bs.Get(j); uint64(got) != model[j] || got < 0 {
+				kind, detail, at = "get-mismatch", fmt.Sprintf("Get(%d)=%d, model has %d", j, got, model[j]), j
+				return
+			}
+		}
+	})
+	if panicked {
+		return "panic-on-valid-Get/" + frame + "/" + pk, "Get panicked on an in-range read: " + pk, -1
+	}
+	return
+}
+
 // build makes the real object for a case start.
 func build(c *Case, model []uint64, sc *scratch) (bs *level.BitStorage, rawCheck bool, perr string) {
 	rawCheck = true
@@ -262,8 +291,12 @@ type opCtx struct {
 	b, n     int
 	pfx, tag string
 	rawCheck bool
-	sc       *scratch
-	fail     func(class string, size int, detail string)
+	// sparse: every index and every raw long is compared after the first operation, after the last
+	// one and whenever the operation's index differs from the previous operation's; in between
+	// only the target index and its neighbours (same long, adjacent longs, first, last) are read.
+	sparse bool
+	sc     *scratch
+	fail   func(class string, size int, detail string)
 }
 
 func isAccess(kind string) bool { return kind == "Set" || kind == "Swap" || kind == "Get" }
@@ -275,6 +308,12 @@ func (x *opCtx) apply(bs *level.BitStorage, model []uint64, ops []Op, checkFrom 
 	var nt int64
 	defer func() { atomic.AddInt64(&transTotal, nt) }()
 	shp := func(i int) string { return x.tag + shape(b, n, i) }
+	compare := func(oi int) (string, string, int) {
+		if x.sparse && oi > 0 && oi < len(ops)-1 && ops[oi-1].I == ops[oi].I && isAccess(ops[oi-1].Kind) {
+			return compareNear(bs, b, n, model, ops[oi].I)
+		}
+		return compareAll(bs, b, model, x.rawCheck, sc)
+	}
 	for oi, op := range ops {
 		judged := oi >= checkFrom
 		size := n*8 + len(ops)
@@ -312,7 +351,7 @@ func (x *opCtx) apply(bs *level.BitStorage, model []uint64, ops []Op, checkFrom 
 				return false
 			}
 			if judged {
-				if k, d, at := compareAll(bs, b, model, x.rawCheck, sc); k != "" {
+				if k, d, at := compare(oi); k != "" {
 					fail(pfx+"modified-by-rejected-call/"+k+"/"+shp(at), size, fmt.Sprintf("after rejected %s(%d,%d): %s", op.Kind, op.I, op.V, d))
 					return false
 				}
@@ -341,7 +380,7 @@ func (x *opCtx) apply(bs *level.BitStorage, model []uint64, ops []Op, checkFrom 
 			fail(pfx+"wrong-result/"+shp(op.I), size, fmt.Sprintf("%s(%d,%d) returned %d, previous value was %d (op %d)", op.Kind, op.I, op.V, ret, old, oi))
 			return false
 		}
-		if k, d, at := compareAll(bs, b, model, x.rawCheck, sc); k != "" {
+		if k, d, at := compare(oi); k != "" {
 			where := "other-index"
 			if at == op.I {
 				where = "target-index"
@@ -361,6 +400,7 @@ func cloneCase(c *Case) Case {
 	cc.t = nil
 	cc.Ops = append([]Op(nil), c.Ops...)
 	cc.Vals = append([]uint64(nil), c.Vals...)
+	cc.Chain = append([]int(nil), c.Chain...)
 	return cc
 }
 
@@ -556,6 +596,20 @@ func product(b, n int, allPairs bool) {
 			}
 		}
 		atomic.AddInt64(&prodSingles, int64(len(idx)*len(vals)*2))
+		// the same single operations on a storage built from longs with garbage in the bits that
+		// encode nothing (judged on Get and on the results only)
+		if (bg == "zero" || bg == "count") && hasPadding(b, n) {
+			for _, i := range idx {
+				for _, v := range vals {
+					for _, k := range kinds {
+						c := Case{Part: "history", B: b, N: n, Init: bg, ViaCtor: true, Garbage: true, Ops: []Op{{k, i, v}}, t: tm}
+						runHistory(&c, 0)
+						evals++
+					}
+				}
+			}
+			atomic.AddInt64(&garbageSingles, int64(len(idx)*len(vals)*2))
+		}
 		// ordered pairs on same-long / adjacent-long indices
 		first := idx
 		if !allPairs || n > 130 {
@@ -715,6 +769,9 @@ func runWire(c Case) {
 	var rn int64
 	var rerr, ferr error
 	if pk, frame, p := engine.Guard(func() {
+		if c.B2 >= 0 && c.Init == "count" {
+			touch(dst, n) // the used destination has also been read and encoded before
+		}
 		rn, rerr = dst.ReadFrom(rd)
 		if rerr == nil {
 			ferr = dst.Fix(b)
@@ -747,6 +804,12 @@ func runWire(c Case) {
 		failCase("wire/ReadFrom+Fix/"+k+"/"+used2+","+shape(b, n, at), n, c, d)
 		return
 	}
+	x := opCtx{b: b, n: n, pfx: "wire/after-Fix/", tag: used2 + ",", rawCheck: exact, sc: sc, sparse: true,
+		fail: func(class string, size int, detail string) { failCase(class, size, c, detail) }}
+	// its encoding is the encoding of what it read (whatever it was asked to encode before)
+	if b > 0 && !x.apply(dst, model, []Op{{Kind: "WriteTo"}}, 0) {
+		return
+	}
 	// keep using it: one Swap at the last index
 	if n > 0 && b > 0 {
 		var old int
@@ -767,10 +830,9 @@ func runWire(c Case) {
 	}
 	// ... and keep using it as an array: the whole single-operation menu (boundary values, rejected
 	// calls, WriteTo) on the object that came out of ReadFrom+Fix
-	if b > 0 {
+	// (the reader-environment cases end here: the reader is gone by now)
+	if b > 0 && envName(c) == "" && c.Init == "count" {
 		po := postOps(b, n)
-		x := opCtx{b: b, n: n, pfx: "wire/after-Fix/", tag: used2 + ",", rawCheck: exact, sc: sc,
-			fail: func(class string, size int, detail string) { failCase(class, size, c, detail) }}
 		x.apply(dst, model, po, 0)
 		atomic.AddInt64(&postOpsApplied, int64(len(po)))
 	}
@@ -909,17 +971,30 @@ func part3(b, n int) {
 		runCtor(Case{Part: "ctor", B: b, N: n, Init: bg, Garbage: true})
 		ev += 2
 	}
-	for _, d := range []int{-1, 1, 2} {
+	for _, d := range wrongLenDeltas(b, n) {
 		runRefuse(Case{Part: "refuse", B: b, N: n, Delta: d})
 		runWireFix(Case{Part: "wirefix", B: b, N: n, Delta: d})
 		ev += 2
+		atomic.AddInt64(&wrongLenCases, 2)
 	}
 	for _, b2 := range dedupInts([]int{-1, 0, 1, b - 1, b, b + 1, 32}, -1, 33) {
 		for _, bg := range []string{"count", "mask"} {
 			runWire(Case{Part: "wire", B: b, N: n, Init: bg, B2: b2})
 			ev++
 		}
+		if hasPadding(b, n) {
+			runWire(Case{Part: "wire", B: b, N: n, Init: "count", B2: b2, Garbage: true})
+			ev++
+			atomic.AddInt64(&garbageWires, 1)
+		}
 	}
+	if !stateN(b, n) {
+		rep.Eval(ev)
+		return
+	}
+	ev += wireEnvs(b, n)
+	ev += wireHistories(b, n)
+	ev += chains(b, n)
 	rep.Eval(ev)
 }
 
@@ -947,6 +1022,8 @@ func judge(c Case) {
 		runWireFix(c)
 	case "zero":
 		runZero(c)
+	case "chain":
+		runChain(c)
 	default:
 		engine.HarnessError("unknown case part %q", c.Part)
 	}
@@ -966,7 +1043,7 @@ func selftest() {
 
 func main() {
 	rep = engine.NewReport("C11")
-	rep.Rule = "(i) BFS to fixpoint over all array contents for b*n<=8 x every Set/Swap/Get/rejected call; (ii) every b in 1..32 x n in {0..130,256,4096} x 4 backgrounds x index classes (all indices for n<=130) x boundary values x {Set,Swap}, ordered pairs on same/adjacent-long indices, rejected calls; (iii) constructor/refusal/wire/Fix per (b,n); b=0 family. distinct = distinct (b,n,background,operation list) tuples (the loops never repeat one); non-trivial = every case reads back all n indices and all longs"
+	rep.Rule = "(i) BFS to fixpoint over all array contents for b*n<=8 x every Set/Swap/Get/rejected call; (ii) every b in 1..32 x n in {0..130,256,4096} x 4 backgrounds x index classes (all indices for n<=130) x boundary values x {Set,Swap}, ordered pairs on same/adjacent-long indices, rejected calls; (iii) constructor/refusal/wire/Fix per (b,n); b=0 family; (iv) wrong-raw-length menu; (v) W m1 W m2 W wire histories on one object for all ordered menu pairs; (vi) the single-operation and rejected-call menu on every object that came out of ReadFrom+Fix; (vii) reader environments; (viii) garbage-padding single operations and wire sources; (ix) ReadFrom+Fix chains on one destination. distinct = distinct (b,n,background,operation list) tuples (the loops never repeat one); non-trivial = every case reads back all n indices and all longs"
 	if rep.ReplayPath != "" {
 		rp, err := engine.LoadReplay(rep.ReplayPath)
 		if err != nil {
@@ -1037,6 +1114,7 @@ func main() {
 	rep.Count("b0_calls_with_unspecified_panic_behaviour", zeroUnspec)
 	rep.Count("histories_abandoned_silently_because_a_replayed_(already_judged)_operation_broke_its_target", abandoned)
 	rep.Unspec(zeroUnspec)
+	reportExtensions()
 	rep.Extra("bfs_fixpoint", true)
 	rep.Extra("bfs_max_depth", bfsMaxDepth)
 	rep.Extra("b_range", "0..32")
@@ -1044,7 +1122,7 @@ func main() {
 	rep.Extra("pairs_first_index", map[bool]string{true: "all indices (n<=130), index classes (n=256,4096)", false: "index classes"}[allPairs])
 	rep.Extra("bfs_wall_s", tBFS.Seconds())
 	rep.AddTrans(transTotal)
-	rep.AddStates(bfsStates + prodSingles + prodPairs + prodRejects)
+	rep.AddStates(bfsStates + prodSingles + prodPairs + prodRejects + garbageSingles + wireHistCount + wireEnvCases + chainCases + wrongLenCases)
 	rep.NonTrivial(rep.Evaluations)
 	rep.AddTraces(rep.Evaluations)
 	rep.Sample(Case{Part: "history", B: 5, N: 13, Init: "count", ViaCtor: true, Ops: []Op{{"Set", 11, 31}, {"Swap", 12, 0}}})
